@@ -108,6 +108,35 @@ func runC02(c *fw.Ctx) {
 		}
 	}
 
+	// saturated arguments under a HUGE upstream weighting: the derivative is tiny (sech^2(15) = 3.7e-13, e^-600) but the product with the
+	// weighting is an ordinary number; a rule that forms the tiny derivative by cancellation (1 - y*y) is then off by whole percents
+	for i := 0; i < c.Pick(300, 6000); i++ {
+		c.Case(func(k *fw.K) {
+			shape := RandShape(k.Rng, 0, 2, 3)
+			x := ref.Zeros(shape)
+			g := ref.Zeros(shape)
+			op := []string{"tanh", "tanh", "exp"}[k.Rng.Intn(3)]
+			for i := range x.Data {
+				switch op {
+				case "tanh":
+					x.Data[i] = (8 + 11*k.Rng.Float64()) * []float64{1, -1}[k.Rng.Intn(2)]
+					d := 1 / (math.Cosh(x.Data[i]) * math.Cosh(x.Data[i]))
+					g.Data[i] = (0.5 + k.Rng.Float64()) / d * []float64{1, -1}[k.Rng.Intn(2)] // weighting chosen so that the product is of order 1
+				default:
+					x.Data[i] = -(300 + 390*k.Rng.Float64())
+					g.Data[i] = (0.5 + k.Rng.Float64()) / math.Exp(x.Data[i]) * 1e-3
+					if math.IsInf(g.Data[i], 0) {
+						g.Data[i] = 1e300
+					}
+				}
+			}
+			in := ref.Instr{Op: op}
+			k.Case = gcase{In: in, Ops: []*ref.T{x}, Tracked: []bool{true}, G: g}
+			k.Key("saturated/%s/%s", op, shapeKey(shape))
+			k.Count("saturated_argument_cases", 1)
+			gradCheck(k, in, []*ref.T{x}, []bool{true}, g, "")
+		})
+	}
 	// the same UNTRACKED operand object serves two applications, each back-propagated before the next is built
 	for i := 0; i < c.Pick(1500, 30000); i++ {
 		c.Case(func(k *fw.K) { c02Reuse(k) })
